@@ -15,9 +15,9 @@ from oracles import pairs
 from vlib import cats, gen
 from vlib.core import HELD, VIOLATED, Check, Scratch, result
 
-GEOMS = ["contiguous", "clusters_far", "dense_vs_sparse", "uneven_extent", "pole", "wrap", "antipodal", "single_patch", "fullsky", "offcentre"]
+GEOMS = ["contiguous", "clusters_far", "dense_vs_sparse", "uneven_extent", "pole", "wrap", "antipodal", "single_patch", "fullsky", "offcentre", "hub"]
 ZCLASSES = ["lowz", "mid", "highz", "empty_bins", "one_bin", "patch_outside"]
-SCALECLASSES = ["one", "overlap", "many_edges", "weighted", "from_zero"]
+SCALECLASSES = ["one", "overlap", "many_edges", "weighted", "from_zero", "nested_shared", "descending"]
 UNITS = ["kpc", "Mpc", "rad", "deg", "arcmin", "arcsec", "kpc/h", "Mpc/h"]
 
 
@@ -89,6 +89,9 @@ def build_world(case, rng):
         # border (a deep field inside a wide tiling): patch radii must be measured from the stored centres
         P = 2
         spacing = np.deg2rad(rng.uniform(4.0, 10.0))
+    elif geom == "hub":
+        # one wide patch with a MIDDLE number surrounded by small fields that are not neighbours of each other
+        P = int(rng.integers(4, 7))
     elif geom == "fullsky":
         # very wide, few patches: radii + scale exceed 180 deg
         P = int(rng.integers(2, 4))
@@ -105,6 +108,19 @@ def build_world(case, rng):
         per = np.minimum(per, spacing * 0.6)
         radius = {"ref": per, "unk": per[::-1].copy(), "rand": per}
     data_centres = None
+    if geom == "hub":
+        nsat = P - 1
+        R = np.deg2rad(0.8)
+        phi = 2 * np.pi * (np.arange(nsat) + rng.uniform(0, 1)) / nsat
+        sat = gen.radec_to_xyz(R * np.cos(phi), R * np.sin(phi))  # around (ra, dec) = (0, 0)
+        hub_ = np.array([[1.0, 0.0, 0.0]])
+        k = P // 2
+        local = np.concatenate([sat[:k], hub_, sat[k:]])  # the hub gets a middle patch number
+        centres = local @ gen.random_rotation(rng).T
+        per = np.full(P, np.deg2rad(0.1))
+        per[k] = np.deg2rad(0.38)
+        radius = {"ref": per, "unk": per, "rand": per}
+        theta_max = np.deg2rad(0.45)
     if geom == "offcentre":
         mid = centres[0] + centres[1]
         mid /= np.linalg.norm(mid)
@@ -166,6 +182,12 @@ def gen_scales(case, rng, theta_max, edges, cosmo):
         # a lower limit of exactly 0: coincident points (every object with itself in an autocorrelation,
         # shared positions between catalogs) have separation 0 and are outside (0, theta_max]
         lo, hi = ([0.0], [1.0]) if rng.random() < 0.5 else ([0.0, 0.2], [0.5, 1.0])
+    elif s == "nested_shared":
+        # nested scales sharing one limit: as many distinct edges as scales
+        lo, hi = ([0.05, 0.05], [0.3, 1.0]) if rng.random() < 0.5 else ([0.05, 0.3, 0.05], [1.0, 1.0, 0.3])
+    elif s == "descending":
+        # contiguous scales listed from large to small
+        lo, hi = ([0.5, 0.2, 0.05], [1.0, 0.5, 0.2]) if rng.random() < 0.5 else ([0.3, 0.05], [1.0, 0.3])
     elif s == "many_edges":
         lo, hi = [0.02, 0.1, 0.3, 0.55, 0.15], [0.1, 0.3, 0.55, 1.0, 0.8]
     else:  # weighted
@@ -205,7 +227,7 @@ class C01(Check):
     floor_nontrivial = 30
     required_counters = ("cells_compared", "sum_weight_cells_compared", "pairs_in_oracle", "cases_pairs_beyond_radii")
     shards = (12, 16)
-    budget = (80, 700)
+    budget = (300, 700)
 
     def cases(self, tier, seed):
         n = 560 if tier == "quick" else 16000
